@@ -162,7 +162,7 @@ def graph_part(ctx, n_graphs):
               [[0, 1, 0], [0, 0, 1], [2, 0, 0]], [[0, 1, 0, 0], [1, 0, 0, 0], [0, 0, 0, 2], [0, 0, 0, 0]]]
     while len(graphs) < n_graphs:
         graphs.append(random_graph(rng))
-    tasks = [{"kind": "graph", "adj": g, "weak_first": i % 2 == 1, "timeout": 30} for i, g in enumerate(graphs)]
+    tasks = [{"kind": "graph", "adj": g, "weak_after": i % 2 == 1, "timeout": 30} for i, g in enumerate(graphs)]
     results = lib.run_tasks(tasks, timeout=30, jobs=4)
     body = HEADER
     for g in graphs:
@@ -279,7 +279,7 @@ def run(ctx):
     rng = ctx.rng
     timing = {"coq_props": round(ctx.elapsed(), 1)}
     t_ = time.time()
-    n_in = ctx.pick(48, 480)
+    n_in = ctx.pick(65, 520)
     n_out = ctx.pick(14, 120)
     N = 5
     cases = [(p, o, s, "in") for p, o, s in classgen.witnesses()]
@@ -463,10 +463,10 @@ def run(ctx):
     for st in shape_stat.values():
         st["acceptance_rate"] = round(st["accepted"] / st["programs"], 3) if st["programs"] else None
         st["closed_form_rate"] = round(st["closed_forms"] / st["monomials"], 3) if st["monomials"] else None
-    ctx.coverage["rule"] = ("programs from harness/classgen.py: 5 minimal witnesses + 12 in-class shapes (constants in conditions, nested branches "
+    ctx.coverage["rule"] = ("programs from harness/classgen.py: 6 minimal witnesses + 13 in-class shapes (constants in conditions, nested branches "
                             "reassigning their condition variables, non-integer finite values, goals over loop constants, simultaneous assignment in "
                             "branches, categorical expansion in a branch, multiple assignment of finite variables, guards, linear cycles, acyclic "
-                            "non-linear dependencies, variable location parameters, gen.G programs) + 7 out-of-class shapes; class membership = "
+                            "non-linear dependencies, variable location parameters, 3..6-valued finite variables, gen.G programs) + 7 out-of-class shapes; class membership = "
                             "InClass.in_class evaluated in the kernel; all monomials of degree <= 2 over the source variables (<= 12 per program); "
                             f"time limit 60 s per program; closed forms vs exact moments under Sem.run for n <= {N}; distinct by (text, options); "
                             "non-trivial = named shape or > 2 monomials; plus random labelled graphs (<= 7 nodes) and Polar-built systems for the worklist model")
